@@ -3,7 +3,7 @@
    `reachable c s` = s is the state after SOME event list accepted by the parallel_safe transition system of
    configuration c (size, instances, argument entries, failing subset): all interleavings of the main thread and
    the member threads, with no bound on anything. *)
-From CF Require Import Common.Bytes C19.Model C19.Proofs C19.Proofs_b C19.Proofs_c C19.Proofs_d C19.Proofs_e.
+From CF Require Import Common.Bytes C19.Model C19.Proofs C19.Proofs_b C19.Proofs_c C19.Proofs_d C19.Proofs_e C19.Proofs_f.
 From Coq Require Import Permutation.
 Open Scope nat_scope.
 
@@ -148,3 +148,68 @@ Theorem C19_shared_reporter_refuted_lts :
     result s = Some (Raised (EChained e)) /\ fails c e = false.
 Proof. exact shared_reporter_refuted_lts. Qed.
 Print Assumptions C19_shared_reporter_refuted_lts.
+
+(* ---- growth round: with-block, helper actions; the model is the code as it is.  A close_link() that raises is outside
+   the property text (C19 quantifies over failing actions and link openings), so the theorems about closing carry the
+   premise `no_close_raises c cf = true` (no member's close_link() raises in the scenario). *)
+
+(* close_links: every member closed exactly once in dictionary order and the swarm not open afterwards *)
+Theorem C19_close_links_closes_all : forall c is_open cf, no_close_raises c cf = true ->
+  close_links_f c is_open cf = (WOk, false, map (inst c) (seq 0 (n c))).
+Proof. exact close_links_closes_all. Qed.
+Print Assumptions C19_close_links_closes_all.
+
+(* a failed open raises the open failure and closes every member *)
+Theorem C19_open_failure_with_failing_close : forall c s r cf, reachable c s -> result s = Some r -> total_args c ->
+  (exists k, k < n c /\ fails c k = true) -> no_close_raises c cf = true ->
+  exists e, fails c e = true /\ e < n c /\
+            open_links_f c false r cf = (WOpenFailed (EChained e), false, map (inst c) (seq 0 (n c))).
+Proof. exact open_failure_with_failing_close. Qed.
+Print Assumptions C19_open_failure_with_failing_close.
+
+(* with Swarm(...) as s: body — open failure: body not run, everything closed, the open failure raised; otherwise the
+   body runs, on exit every member is closed exactly once whether or not the body raised, and the body's exception (if
+   any) is what comes out *)
+Theorem C19_with_block : forall c r body cf, no_close_raises c cf = true ->
+  with_swarm c r body cf =
+  match r with
+  | Raised e => (WOpenFailed e, false, false, map (inst c) (seq 0 (n c)))
+  | Returned => (match body with Some b => WBody b | None => WOk end, true, false, map (inst c) (seq 0 (n c)))
+  end.
+Proof. exact with_swarm_spec. Qed.
+Print Assumptions C19_with_block.
+
+(* observation, outside the property text: what the current close loop does when a close_link() raises — it stops
+   there, later members stay open, the swarm stays marked open *)
+Theorem C19_raising_close_observation :
+  exists c cf, snd (close_links_f c true cf) <> map (inst c) (seq 0 (n c)) /\
+               snd (fst (close_links_f c true cf)) = true /\
+               fst (fst (close_links_f c true cf)) = WClose 0.
+Proof. exact raising_close_observation. Qed.
+Print Assumptions C19_raising_close_observation.
+
+(* get_estimated_positions: results keyed by the right URI *)
+Theorem C19_positions_keyed_by_own_uri : forall c uri streams ok old k p t,
+  (forall i j, i < n c -> j < n c -> uri i = uri j -> i = j) ->
+  k < n c -> ok k = true -> streams k = p :: t ->
+  positions_after c uri streams ok old (uri k) = Some p.
+Proof. exact positions_keyed_by_own_uri. Qed.
+Print Assumptions C19_positions_keyed_by_own_uri.
+
+Theorem C19_positions_others_unchanged : forall c uri streams ok old u,
+  (forall k, k < n c -> ok k = true -> uri k <> u) -> positions_after c uri streams ok old u = old u.
+Proof. exact positions_others_unchanged. Qed.
+Print Assumptions C19_positions_others_unchanged.
+
+(* reset_estimators: the wait ends at the latest when all three variances have been constant for ten samples *)
+Theorem C19_wait_for_estimator_converges : forall pre x y z post,
+  exists m, wait_for_position_estimator (pre ++ repeat (x, y, z) 10 ++ post) = (m, true) /\
+            1 <= m <= List.length pre + 10.
+Proof. exact wait_for_position_estimator_converges. Qed.
+Print Assumptions C19_wait_for_estimator_converges.
+
+(* a missing dictionary entry for member k: KeyError in the caller, only members before k were ever called *)
+Theorem C19_keyerror_only_earlier_members : forall c s k, reachable c s -> result s = Some (Raised (EKey k)) ->
+  args c k = None /\ forall j cl, In (j, cl) (calls s) -> j < k.
+Proof. exact keyerror_only_earlier_members. Qed.
+Print Assumptions C19_keyerror_only_earlier_members.
